@@ -486,4 +486,175 @@ theorem fsSetDefines_joinDefs (ds : List Str) (h : ∀ d ∈ ds, defOk d = true)
     simp only [this, Bool.false_eq_true, if_false]
     exact addOnes_inter d r h
 
+/-! ### `Spec.gcc` inverts `render` -/
+
+theorem form_of_append (n d : Str) (hd : d ≠ []) : form n (n ++ d) = .joined d := by
+  unfold form
+  have h1 : n ++ d ≠ n := by
+    intro h
+    have := congrArg List.length h
+    simp at this
+    exact hd this
+  have h2 : n.isPrefixOf (n ++ d) = true := List.isPrefixOf_iff_prefix.mpr (List.prefix_append n d)
+  simp [h1, h2]
+
+theorem form_no_of {n a : Str} (h : n.isPrefixOf a = false) : form n a = .no := by
+  unfold form
+  have h1 : a ≠ n := by
+    intro h'; subst h'
+    have : a.isPrefixOf a = true := List.isPrefixOf_iff_prefix.mpr (List.prefix_refl a)
+    rw [this] at h; exact Bool.noConfusion h
+  simp [h1, h]
+
+theorem form_self (n : Str) : form n n = .sep := by simp [form]
+
+/-- stepping `gcc` over one argument that carries a joined `-I` value -/
+theorem gcc_I_joined (a v : Str) (rest : List Str) (o : Opts) (h : form "-I".toList a = .joined v) :
+    gcc (a :: rest) o = gcc rest (o.addInc v) := by
+  cases rest <;> simp only [gcc, h]
+
+theorem gcc_I_sep (b : Str) (rest : List Str) (o : Opts) :
+    gcc ("-I".toList :: b :: rest) o = gcc rest (o.addInc b) := by
+  simp only [gcc, form_self]
+
+theorem gcc_isystem_joined (a v : Str) (rest : List Str) (o : Opts)
+    (h1 : form "-I".toList a = .no) (h : form "-isystem".toList a = .joined v) :
+    gcc (a :: rest) o = gcc rest { o with sysIncludes := o.sysIncludes ++ [v] } := by
+  cases rest <;> simp only [gcc, h1, h]
+
+theorem gcc_isystem_sep (b : Str) (rest : List Str) (o : Opts) :
+    gcc ("-isystem".toList :: b :: rest) o = gcc rest { o with sysIncludes := o.sysIncludes ++ [b] } := by
+  have h1 : form "-I".toList "-isystem".toList = .no := form_no_of (by decide +kernel)
+  simp only [gcc, h1, form_self]
+
+theorem gcc_D_joined (a v : Str) (rest : List Str) (o : Opts)
+    (h1 : form "-I".toList a = .no) (h2 : form "-isystem".toList a = .no) (h : form "-D".toList a = .joined v) :
+    gcc (a :: rest) o = gcc rest { o with defines := o.defines ++ [v] } := by
+  cases rest <;> simp only [gcc, h1, h2, h]
+
+theorem gcc_D_sep (b : Str) (rest : List Str) (o : Opts) :
+    gcc ("-D".toList :: b :: rest) o = gcc rest { o with defines := o.defines ++ [b] } := by
+  have h1 : form "-I".toList "-D".toList = .no := form_no_of (by decide +kernel)
+  have h2 : form "-isystem".toList "-D".toList = .no := form_no_of (by decide +kernel)
+  simp only [gcc, h1, h2, form_self]
+
+theorem gcc_U_joined (a v : Str) (rest : List Str) (o : Opts)
+    (h1 : form "-I".toList a = .no) (h2 : form "-isystem".toList a = .no) (h3 : form "-D".toList a = .no)
+    (h : form "-U".toList a = .joined v) :
+    gcc (a :: rest) o = gcc rest { o with undefs := setInsert v o.undefs } := by
+  cases rest <;> simp only [gcc, h1, h2, h3, h]
+
+theorem gcc_U_sep (b : Str) (rest : List Str) (o : Opts) :
+    gcc ("-U".toList :: b :: rest) o = gcc rest { o with undefs := setInsert b o.undefs } := by
+  have h1 : form "-I".toList "-U".toList = .no := form_no_of (by decide +kernel)
+  have h2 : form "-isystem".toList "-U".toList = .no := form_no_of (by decide +kernel)
+  have h3 : form "-D".toList "-U".toList = .no := form_no_of (by decide +kernel)
+  simp only [gcc, h1, h2, h3, form_self]
+
+theorem gcc_std (a v : Str) (rest : List Str) (o : Opts)
+    (h1 : form "-I".toList a = .no) (h2 : form "-isystem".toList a = .no) (h3 : form "-D".toList a = .no)
+    (h4 : form "-U".toList a = .no) (h : form "-std=".toList a = .joined v) :
+    gcc (a :: rest) o = gcc rest { o with std := v } := by
+  cases rest <;> simp only [gcc, h1, h2, h3, h4, h]
+
+theorem gcc_flag (a d : Str) (rest : List Str) (o : Opts)
+    (h1 : form "-I".toList a = .no) (h2 : form "-isystem".toList a = .no) (h3 : form "-D".toList a = .no)
+    (h4 : form "-U".toList a = .no) (h5 : form "-std=".toList a = .no) (h : impliedDefine a = some d) :
+    gcc (a :: rest) o = gcc rest { o with defines := o.defines ++ [d] } := by
+  cases rest <;> simp only [gcc, h1, h2, h3, h4, h5, h]
+
+theorem gcc_other (a : Str) (rest : List Str) (o : Opts)
+    (h1 : form "-I".toList a = .no) (h2 : form "-isystem".toList a = .no) (h3 : form "-D".toList a = .no)
+    (h4 : form "-U".toList a = .no) (h5 : form "-std=".toList a = .no) (h6 : impliedDefine a = none)
+    (h7 : sepOpts.contains a = false) :
+    gcc (a :: rest) o = gcc rest o := by
+  cases rest <;> simp only [gcc, h1, h2, h3, h4, h5, h6, h7, Bool.false_eq_true, if_false]
+
+theorem gcc_sepOther (a b : Str) (rest : List Str) (o : Opts)
+    (h1 : form "-I".toList a = .no) (h2 : form "-isystem".toList a = .no) (h3 : form "-D".toList a = .no)
+    (h4 : form "-U".toList a = .no) (h5 : form "-std=".toList a = .no) (h6 : impliedDefine a = none)
+    (h7 : sepOpts.contains a = true) :
+    gcc (a :: b :: rest) o = gcc rest o := by
+  simp only [gcc, h1, h2, h3, h4, h5, h6, h7, if_true]
+
+theorem notOption_forms {a : Str} (h : notOption a = true) :
+    form "-I".toList a = .no ∧ form "-isystem".toList a = .no ∧ form "-D".toList a = .no ∧
+    form "-U".toList a = .no ∧ form "-std=".toList a = .no := by
+  simp only [notOption, Bool.and_eq_true, Bool.not_eq_true'] at h
+  obtain ⟨⟨⟨⟨a1, a2⟩, a3⟩, a4⟩, a5⟩ := h
+  exact ⟨form_no_of a1, form_no_of a2, form_no_of a3, form_no_of a4, form_no_of a5⟩
+
+theorem implied_notOption {a d : Str} (h : impliedDefine a = some d) : notOption a = true := by
+  unfold impliedDefine at h
+  repeat' split at h
+  all_goals first
+    | (subst_vars; decide +kernel)
+    | simp at h
+
+theorem gcc_render (l : List Opt) (h : ∀ x ∈ l, x.wf = true) (o : Opts) : gcc (render l) o = meaning l o := by
+  induction l generalizing o with
+  | nil => simp [render, gcc, meaning]
+  | cons x r ih =>
+    have hr : ∀ y ∈ r, y.wf = true := fun y hy => h y (by simp [hy])
+    have hx := h x (by simp)
+    cases x with
+    | inc d j =>
+      have hd : d ≠ [] := by simpa [Opt.wf] using hx
+      cases j
+      · simp only [render, Opt.render, Bool.false_eq_true, if_false, List.cons_append, List.nil_append, meaning]
+        rw [gcc_I_sep, ih hr]
+      · simp only [render, Opt.render, if_true, List.cons_append, List.nil_append, meaning]
+        rw [gcc_I_joined _ d _ _ (form_of_append _ _ hd), ih hr]
+    | sysinc d j =>
+      have hd : d ≠ [] := by simpa [Opt.wf] using hx
+      cases j
+      · simp only [render, Opt.render, Bool.false_eq_true, if_false, List.cons_append, List.nil_append, meaning]
+        rw [gcc_isystem_sep, ih hr]
+      · simp only [render, Opt.render, if_true, List.cons_append, List.nil_append, meaning]
+        have n1 : form "-I".toList ("-isystem".toList ++ d) = .no := form_no_of (by simp [List.isPrefixOf])
+        rw [gcc_isystem_joined _ d _ _ n1 (form_of_append _ _ hd), ih hr]
+    | define d j =>
+      have hd : d ≠ [] := by simpa [Opt.wf] using hx
+      cases j
+      · simp only [render, Opt.render, Bool.false_eq_true, if_false, List.cons_append, List.nil_append, meaning]
+        rw [gcc_D_sep, ih hr]
+      · simp only [render, Opt.render, if_true, List.cons_append, List.nil_append, meaning]
+        have n1 : form "-I".toList ("-D".toList ++ d) = .no := form_no_of (by simp [List.isPrefixOf])
+        have n2 : form "-isystem".toList ("-D".toList ++ d) = .no := form_no_of (by simp [List.isPrefixOf])
+        rw [gcc_D_joined _ d _ _ n1 n2 (form_of_append _ _ hd), ih hr]
+    | undef d j =>
+      have hd : d ≠ [] := by simpa [Opt.wf] using hx
+      cases j
+      · simp only [render, Opt.render, Bool.false_eq_true, if_false, List.cons_append, List.nil_append, meaning]
+        rw [gcc_U_sep, ih hr]
+      · simp only [render, Opt.render, if_true, List.cons_append, List.nil_append, meaning]
+        have n1 : form "-I".toList ("-U".toList ++ d) = .no := form_no_of (by simp [List.isPrefixOf])
+        have n2 : form "-isystem".toList ("-U".toList ++ d) = .no := form_no_of (by simp [List.isPrefixOf])
+        have n3 : form "-D".toList ("-U".toList ++ d) = .no := form_no_of (by simp [List.isPrefixOf])
+        rw [gcc_U_joined _ d _ _ n1 n2 n3 (form_of_append _ _ hd), ih hr]
+    | std d =>
+      have hd : d ≠ [] := by simpa [Opt.wf] using hx
+      simp only [render, Opt.render, List.cons_append, List.nil_append, meaning]
+      have n1 : form "-I".toList ("-std=".toList ++ d) = .no := form_no_of (by simp [List.isPrefixOf])
+      have n2 : form "-isystem".toList ("-std=".toList ++ d) = .no := form_no_of (by simp [List.isPrefixOf])
+      have n3 : form "-D".toList ("-std=".toList ++ d) = .no := form_no_of (by simp [List.isPrefixOf])
+      have n4 : form "-U".toList ("-std=".toList ++ d) = .no := form_no_of (by simp [List.isPrefixOf])
+      rw [gcc_std _ d _ _ n1 n2 n3 n4 (form_of_append _ _ hd), ih hr]
+    | flag a =>
+      simp only [Opt.wf, Option.isSome_iff_exists] at hx
+      obtain ⟨d, hd⟩ := hx
+      obtain ⟨f1, f2, f3, f4, f5⟩ := notOption_forms (implied_notOption hd)
+      simp only [render, Opt.render, List.cons_append, List.nil_append, meaning, hd]
+      rw [gcc_flag _ d _ _ f1 f2 f3 f4 f5 hd, ih hr]
+    | sepOther a v =>
+      simp only [Opt.wf, Bool.and_eq_true, Option.isNone_iff_eq_none] at hx
+      obtain ⟨f1, f2, f3, f4, f5⟩ := notOption_forms hx.1.2
+      simp only [render, Opt.render, List.cons_append, List.nil_append, meaning]
+      rw [gcc_sepOther _ _ _ _ f1 f2 f3 f4 f5 hx.2 hx.1.1, ih hr]
+    | other a =>
+      simp only [Opt.wf, Bool.and_eq_true, Option.isNone_iff_eq_none, Bool.not_eq_true'] at hx
+      obtain ⟨f1, f2, f3, f4, f5⟩ := notOption_forms hx.1.1
+      simp only [render, Opt.render, List.cons_append, List.nil_append, meaning]
+      rw [gcc_other _ _ _ f1 f2 f3 f4 f5 hx.1.2 hx.2, ih hr]
+
 end Cppcheck.GccArgs
